@@ -297,6 +297,26 @@ def collect_symbols(e, cache):
     return out
 
 
+def _quantifier_free(e, cache):
+    key = ("qf", e.get_id())
+    if key in cache:
+        return cache[key][1]
+    ok = True
+    stack, seen = [e], set()
+    while stack:
+        t = stack.pop()
+        if t.get_id() in seen:
+            continue
+        seen.add(t.get_id())
+        if z3.is_quantifier(t):
+            ok = False
+            break
+        if z3.is_app(t):
+            stack.extend(t.children())
+    cache[key] = (e, ok)
+    return ok
+
+
 def _alternates(e, cache):
     key = ("alt", e.get_id())
     if key in cache:
@@ -362,7 +382,13 @@ class Discharger:
         s = z3.Solver()
         forms = list(ob.pc) + [z3.Not(ob.goal)]
         if depth == "focus":
-            forms = list(ob.focus) + [z3.Not(ob.goal)]
+            # the named asserts plus every quantifier-free hypothesis (bounds of loop indices, branch conditions, equations between locals)
+            # ... that talks only about symbols of the goal and the named asserts
+            S0 = set(collect_symbols(ob.goal, self.cache))
+            for g in ob.focus:
+                S0 |= collect_symbols(g, self.cache)
+            forms = list(ob.focus) + [f for f in ob.pc if _quantifier_free(f, self.cache) and collect_symbols(f, self.cache) <= S0
+                                      and not any(f.eq(g) for g in ob.focus)] + [z3.Not(ob.goal)]
         elif depth == "sub":
             # the hypotheses that talk about nothing but what the goal talks about
             def link0(f):
